@@ -498,6 +498,152 @@ def loop_template(toks, fn):
              f"    wrapped := {'true' if wrapped else 'false'} }}"]
     return "\n".join(lines)
 
+DIRECT = r"& :: gecs :: __internal :: new_entity_direct :: < MatchedArchetype > \( (idx|found \. index \( \)) , version \)"
+BIND_KINDS = [
+    (r"^& mut slices \. # ident \[ idx \]$", "compMut"),
+    (r"^& slices \. # ident \[ idx \]$", "compRef"),
+    (r"^& mut archetype \. borrow_slice_mut :: < # ident > \( \) \[ idx \]$", "compMut"),
+    (r"^& archetype \. borrow_slice :: < # ident > \( \) \[ idx \]$", "compRef"),
+    (r"^& mut found \. component_mut :: < # ident > \( \)$", "compMut"),
+    (r"^& found \. component :: < # ident > \( \)$", "compRef"),
+    (r"^found \. # ident$", "compField"),
+    (r"^& slices \. entity \[ idx \]$", "entityAtIdx"),
+    (r"^& archetype \. entities \( \) \[ idx \]$", "entityAtIdx"),
+    (r"^found \. entity( \( \))?$", "entityAtIdx"),
+    (r"^& slices \. entity \[ idx \] \. into \( \)$", "entityAtIdxIntoAny"),
+    (r"^& archetype \. entities \( \) \[ idx \] \. into \( \)$", "entityAtIdxIntoAny"),
+    (r"^& \( \* found \. entity( \( \))? \) \. into \( \)$", "entityAtIdxIntoAny"),
+    (r"^" + DIRECT + r"$", "directIdxVersion"),
+    (r"^" + DIRECT + r" \. into \( \)$", "directIdxVersionIntoAny"),
+]
+PVARS = ["Component", "Entity", "EntityAny", "EntityWild", "EntityDirect", "EntityDirectAny", "EntityDirectWild",
+         "OneOf", "Option", "With", "Without"]
+
+
+def bind_kind(q):
+    text = " ".join(q)
+    for pat, k in BIND_KINDS:
+        if re.match(pat, text):
+            return k
+    return "unknown"
+
+
+def quote_body(ts, i):
+    """tokens inside `quote ! ( … )` starting at ts[i] == 'quote'; returns (tokens, index after)."""
+    if ts[i:i + 3] != ["quote", "!", "("]:
+        raise ExtractError("expected quote!(")
+    e = _end_of(ts, i + 2)
+    return ts[i + 3:e - 1], e
+
+
+def bind_table(toks, fn):
+    """rows (variant, isMut or None, kind, source text) of a `fn …_bind_…(param) -> TokenStream`."""
+    params, lo, hi = find_fn(toks, fn)
+    ts = toks_of(toks, lo, hi)
+    if ts[:6] != ["match", "&", "param", ".", "param_type", "{"] or _end_of(ts, 5) != len(ts):
+        raise ExtractError(f"{fn}: body is not a single `match &param.param_type`")
+    arms = ts[6:-1]
+    rows, i = [], 0
+    while i < len(arms):
+        if arms[i] == ",":
+            i += 1
+            continue
+        j = i
+        while arms[j] != "=>":
+            j = _end_of(arms, j) if arms[j] in OPEN else j + 1
+        pat = arms[i:j]
+        v = pat[2] if pat[:2] == ["ParseQueryParamType", "::"] and len(pat) >= 3 and pat[2] in PVARS else "other"
+        if arms[j + 1] == "{":
+            e = _end_of(arms, j + 1)
+            body = arms[j + 2:e - 1]
+        else:
+            e = j + 1
+            while e < len(arms) and arms[e] != ",":
+                e = _end_of(arms, e) if arms[e] in OPEN else e + 1
+            body = arms[j + 1:e]
+        # optional `let ident = to_snake_ident ( ident ) ;`
+        if body[:8] == ["let", "ident", "=", "to_snake_ident", "(", "ident", ")", ";"]:
+            body = body[8:]
+        if body[:2] in (["panic", "!"], ["todo", "!"]):
+            rows.append((v, None, "unsupported", " ".join(body)))
+        elif body[:1] == ["quote"]:
+            q, after = quote_body(body, 0)
+            rows.append((v, None, bind_kind(q) if after == len(body) else "unknown", " ".join(body)))
+        elif body[:6] == ["match", "param", ".", "is_mut", "{"] + body[5:6] and body[4] == "{":
+            inner = body[5:_end_of(body, 4) - 1]
+            k = 0
+            while k < len(inner):
+                if inner[k] == ",":
+                    k += 1
+                    continue
+                if inner[k] in ("true", "false") and inner[k + 1] == "=>" and inner[k + 2] == "quote":
+                    q, after = quote_body(inner, k + 2)
+                    rows.append((v, inner[k] == "true", bind_kind(q), " ".join(inner[k:after])))
+                    k = after
+                else:
+                    rows.append((v, None, "unknown", " ".join(inner[k:k + 12])))
+                    break
+        else:
+            rows.append((v, None, "unknown", " ".join(body)[:120]))
+        i = e
+    return rows
+
+
+def find_template(toks, fn="generate_query_find"):
+    params, lo, hi = find_fn(toks, fn)
+    ts = toks_of(toks, lo, hi)
+    n = len(ts)
+    at = [i for i in range(n - 6) if ts[i:i + 6] == ["queries", ".", "push", "(", "quote", "!"]]
+    if len(at) != 1:
+        raise ExtractError(f"{fn}: expected exactly one `queries.push(quote!(…))`")
+    q = at[0] + 6
+    inner = ts[q + 1:_end_of(ts, q) - 1]
+    # arms: `# __WorldSelectTotal :: # Archetype ( # resolved_entity ) => { … }` and the `Direct` twin
+    arms, i = [], 0
+    while i < len(inner):
+        j = i
+        while inner[j] != "=>":
+            j = _end_of(inner, j) if inner[j] in OPEN else j + 1
+        pat = " ".join(inner[i:j])
+        m = re.match(r"^# __WorldSelectTotal :: # (Archetype|ArchetypeDirect) \( # resolved_entity \)$", pat)
+        if inner[j + 1] != "{":
+            raise ExtractError(f"{fn}: arm body is not a block")
+        e = _end_of(inner, j + 1)
+        stmts = split_stmts(inner[j + 2:e - 1])
+        tail = " ".join(stmts[-1]) if stmts else ""
+        tk = "fetchMapClosure" if re.match(r"^# fetch \. map \( \| found \| closure \( # \( # attrs # bind \) , \* \) \)$", tail) else "unknown"
+        FQ = QBLOCK[:1] + [(r"^let mut closure = \| .* \| # ret # body ;$", "bindClosure", None)] + QBLOCK[2:]
+        arms.append((m.group(1) if m else "?", classify(stmts[:-1], FQ), tk))
+        i = e
+    names = [a[0] for a in arms]
+    if names != ["Archetype", "ArchetypeDirect"]:
+        raise ExtractError(f"{fn}: expected the arms #Archetype, #ArchetypeDirect, found {names}")
+    # wrapper
+    text = " ".join(ts)
+    default_none = re.search(r"# \( # queries \) \* _ => None ,? \}", text) is not None
+    expect = re.search(r'match # __WorldSelectTotal :: try_from \( # entity \) \. expect \( "invalid entity type" \) \{', text) is not None
+
+    def lst(rows):
+        return "[" + ", ".join("." + c for (c, _) in rows) + "]"
+    return ("{ armTyped := " + lst(arms[0][1]) + ", tailTyped := ." + arms[0][2] + ",\n"
+            "    armDirect := " + lst(arms[1][1]) + ", tailDirect := ." + arms[1][2] + ",\n"
+            f"    defaultNone := {'true' if default_none else 'false'}, expectInvalid := {'true' if expect else 'false'} }}")
+
+DATAPTR_SWAP = [
+    DBG,
+    (r"^let (?P<last>\w+) = len - 1 ;$", "bindLast", None),
+    (r"^let (?P<array_ptr>\w+) = self \. 0 \. as_ptr \( \) ;$", "bindArrayPtr", None),
+    (r"^let (?P<result>\w+) = ptr :: read \( array_ptr \. add \( index \) \) \. assume_init \( \) ;$", "readIndex", None),
+    (r"^ptr :: copy \( array_ptr \. add \( last \) , array_ptr \. add \( index \) , 1 \) ;$", "copyLastToIndex", None),
+    (r"^\* array_ptr \. add \( last \) = MaybeUninit :: uninit \( \) ;$", "uninitLast", None),
+    (r"^result$", "returnResult", None),
+]
+
+DATAPTR_DROP = [
+    (r"^for (?P<i>\w+) in 0 \.\. len \{ let (?P<i_ptr>\w+) = self \. 0 \. as_ptr \( \) \. add \( (?P=i) \) ; "
+     r"ptr :: drop_in_place \( (?P=i_ptr) as \* mut T \) ; ptr :: write \( (?P=i_ptr) , MaybeUninit :: uninit \( \) \) ; \}$", "dropLoopToLen", None),
+]
+
 SLOT = [
     DBG,
     (r"^self \. index = SlotIndex :: new_data \( p0 \) ;$", "indexNewData", None),
@@ -662,6 +808,25 @@ def extract_steps():
             msg = str(ex).replace("-/", "- /")
             rec = "{ pre := [.unknown], rev := false, body := [], arms := [], post := [], wrapped := false }   -- NOT RECOGNISED: " + msg[:160]
         parts.append(f"/-- macros/src/generate/query.rs `{fn}`: control skeleton of the per-archetype block template -/\ndef {name} : LoopT :=\n  " + rec)
+    try:
+        rec = find_template(qry)
+    except (ExtractError, IndexError, ValueError, AttributeError) as ex:
+        rec = "{ armTyped := [.unknown], tailTyped := .unknown, armDirect := [.unknown], tailDirect := .unknown, defaultNone := false, expectInvalid := false }   -- NOT RECOGNISED: " + str(ex).replace("-/", "- /")[:160]
+    parts.append("/-- macros/src/generate/query.rs `generate_query_find`: control skeleton of the two arms pushed per matched archetype and of the wrapper -/\ndef findT : FindT :=\n  " + rec)
+    # --- the four parameter-binding tables of query.rs
+    for fn, name in (("iter_bind_mut", "iterBindMut"), ("iter_bind_borrow", "iterBindBorrow"),
+                     ("find_bind_mut", "findBindMut"), ("find_bind_borrow", "findBindBorrow")):
+        try:
+            rows = bind_table(qry, fn)
+        except (ExtractError, IndexError, ValueError) as ex:
+            rows = [("other", None, "unknown", f"NOT RECOGNISED: {ex}")]
+        lines = [f"/-- macros/src/generate/query.rs `{fn}`: one row per `match` arm (and `is_mut` branch) -/", f"def {name} : List BindRow := ["]
+        for k, (v, m, kind, src) in enumerate(rows):
+            mm = "none" if m is None else ("some true" if m else "some false")
+            src = src.replace("-/", "- /")[:150]
+            lines.append(f"  ⟨.{v}, {mm}, .{kind}⟩{',' if k + 1 < len(rows) else ''}   -- {src}")
+        lines.append("]")
+        parts.append("\n".join(lines))
     # --- with_capacity (statements + literal) and clear_events
     try:
         params, lo, hi = find_fn(sto, "with_capacity")
@@ -684,6 +849,24 @@ def extract_steps():
     except (ExtractError, IndexError) as ex:
         rows = [("unknown", f"NOT RECOGNISED: {ex}")]
     parts.append(lean_list("clearEventsSteps", "EStep", rows, "src/archetype/storage.rs `StorageN::clear_events`, statements in source order"))
+    # --- DataPtr<T>::swap_remove / drop_to (the two methods that move or destroy values)
+    try:
+        dp = find_seq(sto, ["impl", "<", "T", ">", "DataPtr", "<", "T", ">"])
+    except ExtractError:
+        dp = None
+    for fn, table, name, pren in (("swap_remove", DATAPTR_SWAP, "dataSwapRemoveSteps", ["index", "len"]),
+                                  ("drop_to", DATAPTR_DROP, "dataDropToSteps", ["len"])):
+        try:
+            if dp is None:
+                raise ExtractError("impl<T> DataPtr<T> not found")
+            params, lo, hi = find_fn(sto, fn, dp)
+            names = param_names(params)
+            rows = classify(split_stmts(toks_of(sto, lo, hi)), table, {nm: c for nm, c in zip(names, pren)})
+            if len(names) != len(pren):
+                rows.append(("unknown", f"unexpected parameter list ({', '.join(names)})"))
+        except (ExtractError, IndexError) as ex:
+            rows = [("unknown", f"NOT RECOGNISED: {ex}")]
+        parts.append(lean_list(name, "MStep", rows, f"src/archetype/storage.rs `DataPtr::{fn}`, statements in source order"))
     # --- Clone / Drop impls of the storage
     try:
         at = find_seq(sto, ["Clone", "for", "$", "name"])
@@ -716,7 +899,7 @@ def extract_steps():
     head = ("/- GENERATED by tools/extract.py (tools/extract_steps.py) from /repo/src/archetype/{storage.rs, slot.rs} on every run.\n"
             "   Do not edit.  The statements of the mutating primitives, classified and listed in source order; meaning:\n"
             "   Gecs/Model/Steps.lean; tie theorems: Gecs/Lemmas/GenSteps.lean. -/\n"
-            "import Gecs.Model.Steps\nimport Gecs.Model.ResolveSteps\nimport Gecs.Model.CloneSteps\nimport Gecs.Model.PushSteps\nimport Gecs.Model.KeySteps\nimport Gecs.Model.InitSteps\nimport Gecs.Model.IterSteps\nimport Gecs.Model.LoopSteps\n\nnamespace Gecs.Gen\n\n")
+            "import Gecs.Model.Steps\nimport Gecs.Model.ResolveSteps\nimport Gecs.Model.CloneSteps\nimport Gecs.Model.PushSteps\nimport Gecs.Model.KeySteps\nimport Gecs.Model.InitSteps\nimport Gecs.Model.IterSteps\nimport Gecs.Model.LoopSteps\nimport Gecs.Model.BindSteps\nimport Gecs.Model.FindSteps\nimport Gecs.Model.MemSteps\n\nnamespace Gecs.Gen\n\n")
     return head + "\n\n".join(parts) + "\n\nend Gecs.Gen\n"
 
 
